@@ -261,6 +261,26 @@ fn cases_plain(tier: Tier) -> Vec<Case> {
         let want = expected_codes(&f, &none, &stave_key());
         v.push(Case { label: format!("IB lanes {:?}", s), cfg: ib_cfg(), key: stave_key(), frames: vec![f], want: vec![Some(want)] });
     }
+    // ---- IB stave, lanes carried by data words with an OUTER-barrel identifier (0x40 | n): the low five bits imitate an
+    //      inner lane number, but such words are not data of an inner lane - the frame does not carry "3 inner lanes
+    //      forming one of the fixed groups"; all three, or one of the three, in every group
+    for base in [0u8, 3, 6] {
+        for which in [0b111u8, 0b001, 0b010, 0b100] {
+            let lanes: Vec<LaneSpec> = (0..3u8)
+                .map(|i| {
+                    let lane = base + i;
+                    let mut l = ib_lane(lane, 0x31, &[ha[0]], None);
+                    if which & (1 << i) != 0 {
+                        l.id = 0x40 | lane;
+                    }
+                    l
+                })
+                .collect();
+            let f = FrameSpec { lanes, nodata_before: false, split: None };
+            let want: BTreeSet<String> = ["E72".to_string()].into_iter().collect();
+            v.push(Case { label: format!("IB stave, lanes {}..{} of which {:03b} carry an outer-barrel identifier", base, base + 2, which), cfg: ib_cfg(), key: stave_key(), frames: vec![f], want: vec![Some(want)] });
+        }
+    }
     // ---- IB chips / bunch counters
     for (label, mutate) in [
         ("chip id != lane", 0u8),
